@@ -100,7 +100,7 @@ fn kb_frag_flush_ref() {
 /// BOUNDED (the real build_media_segment on ONE 1-byte sample, all u64 pts/dts/base times, all u32 sequence numbers): the trun's
 /// data_offset points at the first payload byte (moof size + 8) and the mdat holds the payload - whatever bytes the timestamps contain.
 #[kani::proof]
-#[kani::unwind(6)]
+#[kani::unwind(130)]
 fn kb_media_segment_one() {
     let s = FragmentSample { pts: kani::any(), dts: kani::any(), data: vec![0xAB], is_sync: kani::any() };
     let seq: u32 = kani::any();
